@@ -1,17 +1,16 @@
-\* liveness under weak fairness of the event loop, REPAIRED position (TaskEndNotifies = TRUE: the end of a task
-\* requests a cycle): EventuallyStarted must hold. 2 users, limit 1, three life-cycle events.
+\* teeth: a task that goes on after putting its upload back in the queue violates EventuallyStarted (code position otherwise).
 SPECIFICATION FairSpec
 CONSTANTS
-  UploadIds = {1, 3}
+  UploadIds = {1}
   PerUser = 2
-  MaxSlots = 2
+  MaxSlots = 1
   InitSlots = {1}
   InitTruth = {"unknown"}
   AnyInitAttr = FALSE
   Statuses = {"unknown", "offline", "away", "online"}
   SlotBudget = 0
   AttrBudget = 0
-  LifeBudget = 3
+  LifeBudget = 1
   TrackMgmt = TRUE
   GrantAll = FALSE
   UseUploadingUsers = TRUE
@@ -22,8 +21,8 @@ CONSTANTS
   WPriv = 100
   StateChangeNotifies = TRUE
   SlotsChangeNotifies = TRUE
-  TaskEndNotifies = TRUE
-  RequeueTail = FALSE
+  TaskEndNotifies = FALSE
+  RequeueTail = TRUE
   TrackPerUser = TRUE
 PROPERTY EventuallyStarted
 CHECK_DEADLOCK FALSE
